@@ -38,7 +38,7 @@ def run(chk):
         "hugr-py function builder: inputs() are the function inputs in order, call(f, *wires) passes wires positionally, set_outputs fixes the outputs positionally",
         "parameter lists of up to 4 names (all permutations), up to 2 registers of sizes 1..2 are enumerated",
     ]
-    chk.not_covered += ["the unitary the circuit's HUGR implements (tket's responsibility; the bounded layer compares with pytket's own unitary for nine circuits)", "angle -> half-turn conversion of parameters beyond unpacking the angle struct (bounded layer only)"]
+    chk.not_covered += ["the unitary the circuit's HUGR implements (tket's responsibility; the bounded layer compares with pytket's own unitary for twelve circuits)", "angle -> half-turn conversion of parameters beyond unpacking the angle struct (bounded layer only)"]
     chk.assumptions += ["bounded layer: tket.circuit.Tk2Circuit is a stand-in over the installed tket (rotation parameters converted from float half-turns where they enter the circuit function), see C26_oracle.py"]
 
 
